@@ -262,12 +262,16 @@ def sendMessage (cfg : Cfg) (st : St) (h : Hop) (m : Message) : St × List Out :
   match getTransport cfg st.trans h.transport ip h.port transId with
   | none => (st, [])
   | some (tr1, _, e) =>
-    let tr2 := if isFinalResponse cfg.finalClasses m1 then removeTransport cfg tr1 h.transport h.host h.port transId else tr1
+    let tr2 := if isFinalResponse cfg.finalClasses m1 then removeTransport cfg tr1 h.transport ip h.port transId else tr1
     ({ st with trans := tr2 }, entrySend e (m1.bytes cfg.cm))
 
 /-- strip one pair of brackets from an IPv6 reference -/
 def stripBrackets (h : Bytes) : Bytes :=
   if h.length ≥ 2 && h.head? == some 91 && h.getLast? == some 93 then (h.drop 1).dropLast else h
+
+/-- the address an inbound TCP connection is registered under: brackets stripped, then resolved the
+way `sendMessage` resolves the response hop -/
+def regHost (cfg : Cfg) (h : Bytes) : Bytes := (getIp cfg (stripBrackets h)).getD (stripBrackets h)
 
 /-- `handleRawMessage`. -/
 def handleRawMessage (cfg : Cfg) (st : St) (ev : RawEv) : St × Message :=
@@ -292,7 +296,8 @@ def handleRawMessage (cfg : Cfg) (st : St) (ev : RawEv) : St × Message :=
         match getClientTransaction cfg.cm m' with
         | (none, m'') => (st.trans, m'')
         | (some tid, m'') =>
-          match getTransport cfg st.trans (str "tcp") (stripBrackets hop.host) hop.port tid with
+          -- registered under the address `sendMessage` will look it up with (`regHost`)
+          match getTransport cfg st.trans (str "tcp") (regHost cfg hop.host) hop.port tid with
           | none => (st.trans, m'')
           | some (tr, key, e) => (assocSet tr key { e with primary := some (.conn c) }, m'')
     | _, _ => (st.trans, m2)
